@@ -63,6 +63,33 @@ CHECKS = {
         note="Budget B(n)=2e6+15000n steps (>=60x the calibrated maximum, calibration re-measured each run); wall clock "
              "never decides. Damaged-input crash sites have a long tail: only the sites reached by this workload are judged.",
         design="§3.1 M-STEP, §4.5"),
+    "C17": dict(
+        technique="relational runtime check: observations (M-DIAG) of paired executions on a file and its literal/comment-replaced twin",
+        text="For generated conforming and violating files, the body of random subsets of comment, string and character "
+             "segments (sites known from the generator's IR) is replaced by code-like text of the same displayed width; "
+             "both files are run under the monitors and the complete observations (status, every diagnostic's code, "
+             "level, line, column) must be identical.",
+        note="Replacement alphabet excludes the delimiter of its own kind, backslash, newline, `*/` and `??`; the 42 header "
+             "and #include paths are never touched.",
+        design="§4.17"),
+    "C18": dict(
+        technique="relational runtime check: observations of paired executions on a file and its consistently renamed twin",
+        text="All user identifiers of generated files (occurrences known from the IR) are consistently renamed to names of "
+             "the same length, prefix class and letter case, half of them drawn from a hostile vocabulary (libc names, "
+             "keywords of newer C/C++, keyword prefixes); the observations of both monitored runs must be identical in "
+             "code, level, line and column.",
+        note="Never renames to a keyword of the tool's table or to environ/defined/__attribute__/main; the include guard, "
+             "directive names and include paths keep their spelling.",
+        design="§4.18"),
+    "C19": dict(
+        technique="relational runtime check: observations of paired executions under header prepending, comment insertion and function appending",
+        text="On headerless generated files (conforming and violating, short files with early violation sites included): "
+             "prepending the 42 header must remove exactly one INVALID_HEADER and shift everything else by 12 lines; a "
+             "comment line inserted at every IR-known top-level insertion point must shift later diagnostics by one and "
+             "leave earlier ones untouched; an appended conforming function must change nothing.",
+        note="Insertion points are IR items preceded by an empty line; files whose violation is anchored at the end of the "
+             "file are excluded from the append relation.",
+        design="§4.19"),
 }
 
 NOT_YET = "check under construction in this round; not yet registered"
